@@ -4,11 +4,11 @@ import common
 from common import Case
 
 TITLE = 'Card, call, contract, seat and vulnerability notations are exact inverses'
-LEAN_TARGETS = ['BridgeVerif.Props.C15', 'BridgeVerif.Translated.Notation', 'BridgeVerif.Translated.Contract']
-AUDIT_PROPS = ['C15', 'Translated.Notation', 'Translated.Contract']
-REQUIRED = ['translated_contract_is_model', 'Translated.Notation.player_moves', 'Translated.Notation.bid_numbers',
+LEAN_TARGETS = ['BridgeVerif.Props.C15', 'BridgeVerif.Translated.Notation', 'BridgeVerif.Translated.Contract', 'BridgeVerif.Props.C15t']
+AUDIT_PROPS = ['C15', 'Translated.Notation', 'Translated.Contract', 'C15t']
+REQUIRED = ['C15t.translated_contract_is_model', 'Translated.Notation.player_moves', 'Translated.Notation.bid_numbers',
             'Translated.Notation.bid_texts', 'Translated.Notation.card_numbers', 'Translated.Notation.card_texts',
-            'Translated.Notation.vul_texts', 'Translated.Contract.contract_translated',
+            'Translated.Notation.vul_texts', 'Translated.Contract.contract_class_translated',
             'deck_complete', 'calls_complete', 'card_int_round_trip', 'card_str_round_trip', 'card_notations_injective',
             'card_order_is_index_order', 'bid_idx_round_trip', 'bid_str_round_trip', 'bid_level_suit_round_trip',
             'bid_notations_injective', 'seat_formal_name_round_trip', 'suit_name_round_trip', 'vul_round_trip',
